@@ -586,7 +586,7 @@ package bigbuff
 //@   ensures frame : unchanged(b.buffer, b.offset)
 
 //@ func (*Buffer).Put
-//@   props C01 C12 C04
+//@   props C01 C03 C12 C04
 //@   action mutex
 //@   assume-at-release history : all(j, 0, len(values), log(b, old(end(b)) + j) == values[j])
 //@   ensures closed [C12,C01] : ret == nil ==> lasterr(b.ctx) == nil
